@@ -360,6 +360,10 @@ pub fn reg_get(id: u64) -> Option<(Log, usize)> {
 pub const EVENT_CAP: usize = 200_000;
 pub static RUNAWAYS: AtomicU64 = AtomicU64::new(0);
 pub static UNATTRIBUTED_DEAD_LETTERS: AtomicU64 = AtomicU64::new(0);
+pub static DL_HOOK: Mutex<Option<std::sync::Arc<dyn Fn() + Send + Sync>>> = Mutex::new(None);
+thread_local! {
+    static IN_DL_HOOK: std::cell::Cell<bool> = const { std::cell::Cell::new(false) };
+}
 /// 0 = only WARN and above are enabled (fast), 1 = everything enabled (exercises `tracing` feature code).
 pub static TRACE_VERBOSE: AtomicU8 = AtomicU8::new(0);
 pub static SPANS_CREATED: AtomicU64 = AtomicU64::new(0);
@@ -440,6 +444,15 @@ impl tracing::Subscriber for Sub {
         };
         e.record(&mut v);
         if v.is_dl {
+            // optional re-entrant user code: a subscriber that itself talks to actors (a log collector). Runs at most once
+            // per thread at a time, like the usual re-entrancy guard of such subscribers.
+            let hook = DL_HOOK.lock().unwrap_or_else(|e| e.into_inner()).clone();
+            if let Some(h) = hook {
+                if !IN_DL_HOOK.with(|c| c.replace(true)) {
+                    h();
+                    IN_DL_HOOK.with(|c| c.set(false));
+                }
+            }
             match reg_get(v.id) {
                 Some((log, _)) => log.push(K::DeadLetter {
                     actor_id: v.id,
